@@ -20,6 +20,16 @@ LAYOUTS = {
     # an entity with two roles: the role listed first has no signing key, the later one (attribute authority) has
     'multirole:enc+aa-signing': (('idpAenc', 'encryption'), ('@aa', 'idpA', 'signing')),
     'multirole:none+aa-signing': (('@aa', 'idpA', 'signing'),),
+    # a signing key descriptor that carries no certificate (schema-legal: KeyName only / X509SubjectName only / KeyValue
+    # only) next to a real signing certificate
+    'keyname-then-signing': (('@nocert:keyname', None, 'signing'), ('idpA', 'signing')),
+    'signing-then-subjectname': (('idpA', 'signing'), ('@nocert:subjectname', None, 'signing')),
+    'keyvalue-useless-then-signing': (('@nocert:keyvalue', None, None), ('idpA', 'signing')),
+}
+NOCERT = {
+    'keyname': '<ds:KeyName>idp-signing-2031</ds:KeyName>',
+    'subjectname': '<ds:X509Data><ds:X509SubjectName>CN=vp-idpA</ds:X509SubjectName></ds:X509Data>',
+    'keyvalue': None,      # filled from the mallory key below: a bare RSA key value
 }
 AA_ROLE = ('<md:AttributeAuthorityDescriptor protocolSupportEnumeration="urn:oasis:names:tc:SAML:2.0:protocol">%s'
            '<md:AttributeService Binding="urn:oasis:names:tc:SAML:2.0:bindings:SOAP" Location="https://idpa.example/aa"/>'
@@ -30,9 +40,25 @@ KEYINFO = ('none', 'x509-actual', 'x509-idpA', 'rsakv-actual')
 ONLY = (True, None, False)
 
 
+def nocert_descriptor(kind, use):
+    inner = NOCERT[kind]
+    if inner is None:
+        inner = forge.keyinfo_xml('rsakv:idpA2')[len('<ds:KeyInfo>'):-len('</ds:KeyInfo>')]
+    return '<md:KeyDescriptor%s><ds:KeyInfo xmlns:ds="http://www.w3.org/2000/09/xmldsig#">%s</ds:KeyInfo></md:KeyDescriptor>' % (
+        ' use="%s"' % use if use else '', inner)
+
+
 def md_a(layout):
-    keys = [k for k in LAYOUTS[layout] if k[0] != '@aa']
+    keys = [k for k in LAYOUTS[layout] if not k[0].startswith('@')]
     x = world.idp_md(IDP_A, keys=tuple(keys))
+    for i, k in enumerate(LAYOUTS[layout]):
+        if k[0].startswith('@nocert:'):
+            d = nocert_descriptor(k[0].split(':')[1], k[2])
+            if i == 0:
+                x = x.replace('<md:KeyDescriptor', d + '<md:KeyDescriptor', 1)
+            else:
+                j = x.rindex('</md:KeyDescriptor>') + len('</md:KeyDescriptor>')
+                x = x[:j] + d + x[j:]
     aa = [k for k in LAYOUTS[layout] if k[0] == '@aa']
     if aa:
         x = x.replace('</md:EntityDescriptor>', AA_ROLE % ''.join(world.key_descriptor(n, u) for _t, n, u in aa) + '</md:EntityDescriptor>')
@@ -94,7 +120,7 @@ def metadata_keys(layout, issuer):
     if LAYOUTS[layout] == 'EMPTY':
         return []
     if issuer == 'A':
-        return [k[-2] for k in LAYOUTS[layout] if k[-1] in ('signing', None)]
+        return [k[-2] for k in LAYOUTS[layout] if k[-1] in ('signing', None) and k[-2] is not None]
     if issuer == 'B':
         return ['idpB']
     return []
@@ -198,7 +224,7 @@ def run(ctx):
         'level': 'exploration',
         'coverage': {
             'evaluations': n, 'distinct_nontrivial': len(nontriv), 'exhaustive': True, 'accepted': acc, 'vacuous': acc == 0,
-            'rule': 'complete product: metadata layout of IdP A (one/two signing certs, encryption-only, signing+encryption, use-less, none; IdP B always has its own) (also a two-role entity whose first role has no signing key while its attribute-authority role has one) x claimed Issuer (A, B, unknown, absent) x actual signing key (A, A2, A-encryption, B, mallory) x embedded KeyInfo (none, X509 of signer, X509 of A, RSAKeyValue of signer) x signed element (response, assertion, and a response validly signed by its issuer carrying an assertion of another issuer) x only_use_keys_in_metadata (True, absent, False); a sub-product under crypto_backend XMLSecurity (pyXMLSecurity modelled by vp/pyxmlsec_model.py); non-trivial = cells where the statement forbids acceptance',
+            'rule': 'complete product: metadata layout of IdP A (one/two signing certs, encryption-only, signing+encryption, use-less, none; IdP B always has its own) (also a two-role entity whose first role has no signing key while its attribute-authority role has one, and signing key descriptors without a certificate - KeyName / X509SubjectName / KeyValue only - next to a real one) x claimed Issuer (A, B, unknown, absent) x actual signing key (A, A2, A-encryption, B, mallory) x embedded KeyInfo (none, X509 of signer, X509 of A, RSAKeyValue of signer) x signed element (response, assertion, and a response validly signed by its issuer carrying an assertion of another issuer) x only_use_keys_in_metadata (True, absent, False); a sub-product under crypto_backend XMLSecurity (pyXMLSecurity modelled by vp/pyxmlsec_model.py); non-trivial = cells where the statement forbids acceptance',
             'samples': [{'cell': list(cs[i0]), 'outcomes': [list(o) for o in res[i0]]}],
             'distinct_outcomes': len(hist), 'outcome_histogram': hist,
         },
